@@ -19,7 +19,6 @@ package ipfilter
 
 import (
 	"net"
-	"strings"
 
 	"github.com/yl2chen/cidranger"
 
@@ -61,10 +60,12 @@ func New(spec *Spec) *IPFilter {
 		for _, ipcidr := range ipcidrs {
 			ip := net.ParseIP(ipcidr)
 			if ip != nil {
-				mask := allOnesIPv4Mask
-				// https://stackoverflow.com/a/48519490/1705845
-				if strings.Count(ipcidr, ":") >= 2 {
-					mask = allOnesIPv6Mask
+				// An IPv4-mapped IPv6 address ("::ffff:1.2.3.4") is an IPv4
+				// address for the ranger: it must get the 32 bits mask,
+				// otherwise the ranger panics.
+				mask := allOnesIPv6Mask
+				if ip4 := ip.To4(); ip4 != nil {
+					ip, mask = ip4, allOnesIPv4Mask
 				}
 				ipNet := net.IPNet{IP: ip, Mask: mask}
 				ranger.Insert(cidranger.NewBasicRangerEntry(ipNet))
@@ -75,6 +76,15 @@ func New(spec *Spec) *IPFilter {
 			if err != nil {
 				logger.Errorf("BUG: %s is an invalid ip or cidr", ipcidr)
 				continue
+			}
+			// same for an IPv4-mapped network ("::ffff:10.0.0.0/104")
+			if ip4 := ipNet.IP.To4(); ip4 != nil && len(ipNet.Mask) == net.IPv6len {
+				ones, _ := ipNet.Mask.Size()
+				if ones < 96 {
+					logger.Errorf("%s: unsupported prefix of an IPv4-mapped network", ipcidr)
+					continue
+				}
+				ipNet = &net.IPNet{IP: ip4, Mask: net.CIDRMask(ones-96, net.IPv4len*8)}
 			}
 			ranger.Insert(cidranger.NewBasicRangerEntry(*ipNet))
 		}
